@@ -236,6 +236,19 @@ pub fn call_lib(p: &RosProblem) -> SearchResult {
                 .map(|(i, c)| rr::Callback::new(d(c.rt_bound), &*arrs[ai[i]], &*costs[ci[i]], c.kind.lib()))
                 .collect();
             let sc: Vec<&rr::Callback<dyn ArrivalBound, dyn JobCostModel>> = subchain.iter().map(|i| &cbs[*i]).collect();
+            // in a third of the problems the same callback wrappers are first used for other analyses (every
+            // callback as a singleton subchain, as in an iteration over a whole workload): the wrappers must
+            // not remember anything
+            if workload.len() >= 2 && (*limit + workload.len() as u64 + subchain[0] as u64) % 3 == 0 {
+                // (not observed by the in-situ monitors of C08: they watch the analysis proper)
+                let io = response_time_analysis::verif_hooks::set_item_observer(None);
+                let so = response_time_analysis::verif_hooks::set_search_observer(None);
+                for i in 0..workload.len() {
+                    let _ = rr::rta_subchain(&supply, &cbs[..], &[&cbs[i]], d(*limit));
+                }
+                response_time_analysis::verif_hooks::set_item_observer(io);
+                response_time_analysis::verif_hooks::set_search_observer(so);
+            }
             rr::rta_subchain(&supply, &cbs[..], &sc[..], d(*limit))
         }
         RosProblem::BW { workload, subchain, limit, .. } => {
@@ -250,6 +263,19 @@ pub fn call_lib(p: &RosProblem) -> SearchResult {
                 .map(|(i, c)| bw::Callback::new(d(c.rt_bound), &*arrs[ai[i]], &*costs[ci[i]], c.kind.lib()))
                 .collect();
             let sc: Vec<&bw::Callback<dyn ArrivalBound, dyn JobCostModel>> = subchain.iter().map(|i| &cbs[*i]).collect();
+            // in a third of the problems the same callback wrappers are first used for other analyses (every
+            // callback as a singleton subchain, as in an iteration over a whole workload): the wrappers must
+            // not remember anything
+            if workload.len() >= 2 && (*limit + workload.len() as u64 + subchain[0] as u64) % 3 == 0 {
+                // (not observed by the in-situ monitors of C08: they watch the analysis proper)
+                let io = response_time_analysis::verif_hooks::set_item_observer(None);
+                let so = response_time_analysis::verif_hooks::set_search_observer(None);
+                for i in 0..workload.len() {
+                    let _ = bw::rta_subchain(&supply, &cbs[..], &[&cbs[i]], d(*limit));
+                }
+                response_time_analysis::verif_hooks::set_item_observer(io);
+                response_time_analysis::verif_hooks::set_search_observer(so);
+            }
             bw::rta_subchain(&supply, &cbs[..], &sc[..], d(*limit))
         }
     }
